@@ -26,6 +26,7 @@ import (
 	_ "verifsim/shapes/kv"
 	_ "verifsim/shapes/nested"
 	_ "verifsim/shapes/nestedb"
+	_ "verifsim/shapes/opt4"
 	_ "verifsim/shapes/pair"
 	_ "verifsim/shapes/person"
 	_ "verifsim/shapes/rep3"
@@ -47,7 +48,7 @@ func main() {
 	per := flag.Int("per", 3, "instances per goroutine and round")
 	flag.Parse()
 	r := core.NewRng(core.Mix(*seed, 0xace))
-	o := core.HistOpts{Shapes: []string{"doc", "flat", "flatb", "kv", "nested", "nestedb", "pair", "person", "rep3"}, PageMin: 1, PageMax: 4, MinBatches: 1, MaxBatches: 3, MaxOps: 10, Profile: core.Benign}
+	o := core.HistOpts{Shapes: []string{"doc", "flat", "flatb", "kv", "nested", "nestedb", "opt4", "pair", "person", "rep3"}, PageMin: 1, PageMax: 4, MinBatches: 1, MaxBatches: 3, MaxOps: 10, Profile: core.Benign}
 	bad := 0
 	total := 0
 	// First-use stampede: for every shape, all goroutines start a writer at the
@@ -107,6 +108,76 @@ func main() {
 			}
 		}
 	}
+	// Instances that FAIL at the same time: every goroutine runs writers whose
+	// destination fails at a seeded call, and readers whose source fails, each
+	// with a different error value. Error paths have state too (error objects,
+	// cleanup of buffers), and only failing instances exercise it.
+	{
+		var wg sync.WaitGroup
+		fo := o
+		fo.MaxOps = 8
+		type ftask struct {
+			w    *core.WriterSpec
+			sf   core.SinkFault
+			rf   core.SrcFault
+			file []byte
+			errs []string
+		}
+		all := make([][]*ftask, *g)
+		for i := 0; i < *g; i++ {
+			for j := 0; j < 4; j++ {
+				w := core.GenHistory(r, fo)
+				t := &ftask{w: w}
+				t.sf = core.SinkFault{K: r.Range(1, 30), Kind: []string{"err0", "torn", "full"}[r.Intn(3)], Arg: r.Intn(1 << 16), Sticky: r.Chance(1, 2), Flavor: core.Flavors[r.Intn(len(core.Flavors))]}
+				t.rf = core.SrcFault{K: r.Range(1, 800), Kind: []string{"err0", "partial", "early_eof", "full"}[r.Intn(4)], Arg: r.Intn(1 << 16), Sticky: r.Chance(1, 2), Flavor: core.Flavors[r.Intn(len(core.Flavors))]}
+				all[i] = append(all[i], t)
+			}
+		}
+		start := make(chan struct{})
+		for i := 0; i < *g; i++ {
+			wg.Add(1)
+			go func(list []*ftask) {
+				defer wg.Done()
+				<-start
+				for _, t := range list {
+					res := core.ExecWriter(t.w, &core.Sink{Fault: &t.sf})
+					for _, a := range res.APIs {
+						t.errs = append(t.errs, a.Err)
+					}
+					res.CloseAfterFailure()
+					ok := &core.Sink{}
+					if wr := core.ExecWriter(t.w, ok); wr.Failed() == nil {
+						rr := core.ExecReader(t.w.Shape, core.NewSource(ok.Data, nil, &t.rf).AsReadSeeker("rs"), 1<<20, nil)
+						t.errs = append(t.errs, rr.CtorErr, rr.FinalErr)
+					}
+				}
+			}(all[i])
+		}
+		close(start)
+		wg.Wait()
+		// the error texts an instance saw must be what it sees alone
+		for i := 0; i < *g; i++ {
+			for _, t := range all[i] {
+				total++
+				var solo []string
+				res := core.ExecWriter(t.w, &core.Sink{Fault: &t.sf})
+				for _, a := range res.APIs {
+					solo = append(solo, a.Err)
+				}
+				res.CloseAfterFailure()
+				ok := &core.Sink{}
+				if wr := core.ExecWriter(t.w, ok); wr.Failed() == nil {
+					rr := core.ExecReader(t.w.Shape, core.NewSource(ok.Data, nil, &t.rf).AsReadSeeker("rs"), 1<<20, nil)
+					solo = append(solo, rr.CtorErr, rr.FinalErr)
+				}
+				if fmt.Sprint(solo) != fmt.Sprint(t.errs) {
+					bad++
+					fmt.Printf("INTERFERENCE %s: a failing instance reported %q next to other failing instances, %q alone\n", t.w.HistoryString(), t.errs, solo)
+				}
+			}
+		}
+	}
+
 	// One very large Write per goroutine (16384 and 16385 rows of a two- and a
 	// three-column shape): code paths that only exist for big row groups.
 	{
